@@ -31,6 +31,8 @@ type Parser struct {
 	Errors              []error
 	DefineInfos         []string
 	isReplayedToken     bool
+	isLineHead          bool
+	hasToken            bool
 }
 
 func New(lexer lexer.Lexer, file string) Parser {
